@@ -517,17 +517,37 @@ func c20Scenarios(tier string) []*world.Scenario {
 				case "mget":
 					r = MGetReq(key, keysB[0])
 				}
-				sc.Clients = []world.ClientSpec{ClientOf([]Req{r}, true)}
+				// a run of reads in one execution (closed loop), so that an implementation that rotates deterministically
+				// instead of drawing at random is judged by the same possibilistic criterion
+				run := len(healthy) + 1
+				if cmd == "set" || cmd == "hscan" {
+					run = 2
+				}
+				var rr []Req
+				for j := 0; j < run; j++ {
+					rr = append(rr, r)
+				}
+				cs := ClientOf(rr, false)
+				for j := range cs.Chunks {
+					cs.Chunks[j].WaitReplies = j
+				}
+				sc.Clients = []world.ClientSpec{cs}
 				sc.Name = fmt.Sprintf("C20/%drep/banned-mask%d/%s", nrep, mask, cmd)
 				write := cmd == "set" || cmd == "hscan"
 				hl := append([]string{}, healthy...)
 				sc.Observe = func(w *world.World) string {
+					set := map[string]bool{}
 					for _, rec := range w.DataCmds("") {
 						if hasKey(rec.Args, key) {
-							return rec.Addr
+							set[rec.Addr] = true
 						}
 					}
-					return "none"
+					var l []string
+					for a := range set {
+						l = append(l, a)
+					}
+					sort.Strings(l)
+					return strings.Join(l, ",")
 				}
 				sc.Check = func(w *world.World) []world.Violation {
 					var vs []world.Violation
@@ -561,30 +581,31 @@ func c20Scenarios(tier string) []*world.Scenario {
 					if write {
 						return nil
 					}
-					var missing []string
+					// union, over all random outcomes and all reads of the run, of the nodes that served a read
+					served := map[string]bool{}
+					for k := range obs {
+						for _, a := range strings.Split(k, ",") {
+							if a != "" {
+								served[a] = true
+							}
+						}
+					}
+					var missing, seen []string
 					for _, h := range hl {
-						if obs[h] == 0 {
+						if !served[h] {
 							missing = append(missing, h)
 						}
 					}
+					for a := range served {
+						seen = append(seen, a)
+					}
+					sort.Strings(seen)
 					if len(missing) > 0 {
-						var seen []string
-						for a, n := range obs {
-							seen = append(seen, fmt.Sprintf("%s x%d", a, n))
-						}
-						sort.Strings(seen)
 						sig := "healthy-replica-unreachable"
-						if len(obs) == 1 {
+						if len(seen) == 1 {
 							sig = "only-one-replica-ever-selected"
 						}
-						return []world.Violation{{Sig: sig, Msg: fmt.Sprintf("over ALL outcomes of the random choice, reads of a slot of master A reach only {%s}; healthy replicas never selected: %v", strings.Join(seen, ", "), missing)}}
-					}
-					// equally many outcomes per healthy replica
-					n0 := obs[hl[0]]
-					for _, h := range hl {
-						if obs[h] != n0 {
-							return []world.Violation{{Sig: "uneven-selection", Msg: fmt.Sprintf("outcome counts per replica differ: %v", obs)}}
-						}
+						return []world.Violation{{Sig: sig, Msg: fmt.Sprintf("over ALL outcomes of the random choices of a run of reads, reads of a slot of master A are only ever served by {%s}; healthy replicas never selected: %v", strings.Join(seen, ", "), missing)}}
 					}
 					return nil
 				}
@@ -616,23 +637,43 @@ func c20Reparent() []*world.Scenario {
 			Faults: []world.Fault{{Kind: "topo", Nodes: after}}, Ticks: []time.Duration{1100 * time.Millisecond}}
 		sc.TickGate = func(w *world.World) bool { return w.FaultsDone() }
 		r := GetReq(key)
-		cs := ClientOf([]Req{r}, true)
-		cs.Chunks[0].WaitTicks = 1
+		cs := ClientOf([]Req{r, r, r}, false)
+		for j := range cs.Chunks {
+			cs.Chunks[j].WaitTicks, cs.Chunks[j].WaitReplies = 1, j
+		}
 		sc.Clients = []world.ClientSpec{cs}
 		sc.Name = "C20/reparent/" + target
+		masterOK := AddrB
+		if target == "old-master-slot" {
+			masterOK = AddrA
+		}
 		k := key
 		target := target
 		w0 := append([]string{}, want...)
 		sc.Observe = func(w *world.World) string {
+			set := map[string]bool{}
 			for _, rec := range w.DataCmds("") {
 				if hasKey(rec.Args, k) {
-					return rec.Addr
+					set[rec.Addr] = true
 				}
 			}
-			return "none"
+			var l []string
+			for a := range set {
+				l = append(l, a)
+			}
+			sort.Strings(l)
+			return strings.Join(l, ",")
 		}
 		sc.Check = func(w *world.World) []world.Violation { return CheckStreams(w, StreamOpts{}) }
-		sc.Final = func(obs map[string]int) []world.Violation {
+		sc.Final = func(obs0 map[string]int) []world.Violation {
+			obs := map[string]int{}
+			for k2 := range obs0 {
+				for _, a := range strings.Split(k2, ",") {
+					if a != "" {
+						obs[a]++
+					}
+				}
+			}
 			var missing, extra []string
 			for _, a := range w0 {
 				if obs[a] == 0 {
@@ -640,7 +681,7 @@ func c20Reparent() []*world.Scenario {
 				}
 			}
 			for a := range obs {
-				ok := false
+				ok := a == masterOK // the master of the owning set may serve reads too
 				for _, x := range w0 {
 					if x == a {
 						ok = true
@@ -675,7 +716,7 @@ func init() {
 		Scenarios: c16Scenarios, BudgetQuick: 100, BudgetThorough: 1500,
 		Assumptions: []string{"a node that stalls on one command does not answer later commands on the same connection either (Redis executes sequentially)", "virtual clock; msgTimeout only runs after an event, so a wake-up request follows the tick"}})
 	register(&Check{ID: "C20", Level: "model_checking",
-		Rule:      "topologies with 2 and 3 replicas of master A; every subset of replicas banned by the health monitor leaving >= 2 healthy; GET / MGET fragment (reads) and SET / HSCAN (master-only) routed under EVERY outcome of every random choice (choice enumeration, not sampling); oracle: per execution the node belongs to the owning set and is healthy (master for writes); across all outcomes of a scenario every healthy replica is selected, equally often; distinct = observable outcomes",
+		Rule:      "topologies with 2 and 3 replicas of master A; every subset of replicas banned by the health monitor leaving >= 2 healthy; a closed-loop run of GET / MGET-fragment reads (and SET / HSCAN, master-only) routed under EVERY outcome of every random choice (choice enumeration, not sampling); oracle: per execution the node belongs to the owning set and is healthy (master for writes); across all outcomes (and all reads of a short run) every healthy replica serves some read; after a replica is re-parented by a topology update it serves its new master's slots and not the old one's; distinct = observable outcomes",
 		Scenarios: c20Scenarios, BudgetQuick: 60, BudgetThorough: 600,
 		Assumptions: []string{"possibilistic core of the statistical claim: under a fair generator every selectable replica serves some reads in a long run iff it is selected by at least one outcome", "healthy = not flagged by the health monitor; ban-lifting semantics are not part of the oracle"}})
 }
